@@ -415,8 +415,8 @@ def _odd(cx: Ctx, env, ty, depth):
     if c == 0:  # variable index (all elements have type ty)
         idx = gen(cx, env, I, 0)
         return f"{lit}[{idx} % {n}]" if cx.chance(5) else f"{lit}[{idx}]"
-    if c == 1:
-        return f"{lit}[-{cx.int_(1, n)}]"
+    if c == 1:  # negative index, in range or beyond the start
+        return f"{lit}[-{cx.int_(1, n + 2)}]"
     if c == 2:
         return f"{lit}[{cx.int_(0, 1)}:{cx.int_(1, n)}][0]"
     if c == 3:  # planted out of range constant index
